@@ -1,4 +1,7 @@
 ENGINES = [
+    {"name": "clientdrv (E4)", "path": "harness/src/e4.rs", "serves_properties": ["C05", "C13", "C14"],
+     "kind_free_text": "the real watchtower-client binary (built with the verif feature) driven over its plugin stdio protocol against scripted fake towers; real SIGKILLs and "
+                       "aborts at hooked commit points; observation through RPC answers, log notifications, stderr, tower request logs, the retry-loop trace and the sqlite file"},
     {"name": "wire (E5)", "path": "harness/src/e5.rs", "serves_properties": ["C15", "C16"],
      "kind_free_text": "the real warp router on loopback TCP in front of the real InternalAPI (C15, raw-socket client with structured mutations) or a recording/scripted gRPC stub "
                        "(C16, the plugin's real request/response code as the client)"},
@@ -28,6 +31,24 @@ META = {
     "C01": _e1meta("DESIGN.md §4 C01", "Every breach of an accepted appointment creates an obligation that the RPC-log checker must see discharged inside the block's delivery window (or before the reply)."),
     "C02": _e1meta("DESIGN.md §4 C02", "Every single sendrawtransaction the tower issues is checked for a justification by the model at its log position."),
     "C04": _e1meta("DESIGN.md §4 C04", "Responded appointments are followed through reorgs (depth up to 100), re-submission cadence, confirmation bookkeeping and the exact 100-confirmation completion/refund."),
+    "C05": {
+        "engine": "clientdrv (E4)", "level": "fault_enumeration", "design_ref": "DESIGN.md §4 C05, appendix C",
+        "technique": "runtime monitoring of the real client process under scripted tower faults and real kills: exactly-one-durable-record oracle over the sqlite file after every answered notification / restart",
+        "text": "Tower behaviour scripts x kill points are sampled per scenario; the durable-record obligation is checked at every quiescent point and survives restarts. Held on all scenarios run.",
+        "note": "Protocol-level fake towers; sampled scripts and kill points.",
+    },
+    "C13": {
+        "engine": "clientdrv (E4)", "level": "fault_enumeration", "design_ref": "DESIGN.md §4 C13, appendix C",
+        "technique": "runtime monitoring of the real client process across outage/recovery timings: bounded-progress, flood-rate and retry-loop-overlap monitors over request logs, trace points and RPC answers",
+        "text": "Outage kinds x recovery instants relative to the back-off schedule are enumerated from a grid; delivery after recovery is judged against a generous multiple of the configured delays. Held on all scenarios run.",
+        "note": "Wall-clock bounds (the product's back-off is defined in seconds); liveness restated as bounded progress.",
+    },
+    "C14": {
+        "engine": "clientdrv (E4)", "level": "exploration", "design_ref": "DESIGN.md §4 C14, appendix C",
+        "technique": "runtime monitoring of the real client process under structured mutations of tower replies: liveness probes, stderr panic monitor, persisted-proof and no-further-request checks",
+        "text": "Every reply kind / field mutation is followed by liveness probes (process alive, listtowers, next hook answered). Held on every reply sent.",
+        "note": "Sampled mutations; notification path (retry path shares the parsing code and is driven by C05/C13).",
+    },
     "C06": _e1meta("DESIGN.md §4 C06", "Success iff the signature is by a registered unexpired user over exactly the request's message; failures change nothing; other users' records are byte-identical after every request."),
     "C07": _e1meta("DESIGN.md §4 C07", "Slot ledger conservation after every step with the balance read from reply, memory and disk; plus the slot formula for every length 0..4 MiB (that sub-space exhaustively)."),
     "C08": _e1meta("DESIGN.md §4 C08", "Every receipt is verified with the client-side verifier from exactly the returned fields; stored rows and read-backs are compared byte for byte with the last accepted version."),
